@@ -720,6 +720,7 @@ pub fn run(ctx: &Ctx) -> Report {
             rep.disagree(&format!("firstbind:{}", reqs[k]), &reqs[k], &format!("brute-force binder: {}", expect[k]), r);
         }
     }
+    shape_cases(ctx, &mut rep, threads);
     for (i, r) in results.iter().enumerate() {
         let r = match r {
             Some(r) => r,
@@ -746,4 +747,162 @@ pub fn run(ctx: &Ctx) -> Report {
         }
     }
     rep
+}
+
+// ───────────── list-length dispatch: the ListSwitch impl model against the real code ─────────────
+
+#[derive(Clone, Copy, PartialEq, Debug)]
+enum Shape {
+    Wild,
+    List(usize),
+    Tail(usize),
+}
+
+fn shape_wire(s: &Shape) -> String {
+    match s {
+        Shape::Wild => "_".into(),
+        Shape::List(n) => format!("(l {})", n),
+        Shape::Tail(n) => format!("(t {})", n),
+    }
+}
+
+fn shape_src(s: &Shape) -> String {
+    match s {
+        Shape::Wild => "_".into(),
+        Shape::List(n) => format!("[{}]", vec!["_"; *n].join(", ")),
+        Shape::Tail(n) => format!("[{}, ..]", vec!["_"; *n].join(", ")),
+    }
+}
+
+fn shape_admits(s: &Shape, l: usize) -> bool {
+    match s {
+        Shape::Wild => true,
+        Shape::List(n) => *n == l,
+        Shape::Tail(n) => *n <= l,
+    }
+}
+
+/// clause lists over `List<Int>` whose patterns only look at the length: ALL accepted lists of
+/// <= 4 shapes with lengths <= 3 (thorough) or a sample (quick).  For every length 0..=5 the
+/// clause taken by the compiled code is read off (`f(xs) == i` for every i) and compared with
+/// the head of `dispatchFixed` (model of the repaired selection in handle_decision_tree).
+fn shape_cases(ctx: &Ctx, rep: &mut Report, threads: usize) {
+    let mut alphabet = vec![Shape::Wild];
+    for n in 0..=3 {
+        alphabet.push(Shape::List(n));
+    }
+    for n in 1..=3 {
+        alphabet.push(Shape::Tail(n));
+    }
+    // accepted = every clause reachable and all lengths covered (decided here by brute force on
+    // lengths 0..=5, which is exact for shapes of length <= 3; the real checker must agree)
+    let mut lists: Vec<Vec<Shape>> = vec![];
+    let k = alphabet.len();
+    for len in 1..=4usize {
+        let total = k.pow(len as u32);
+        for mut code in 0..total {
+            let mut cs = vec![];
+            for _ in 0..len {
+                cs.push(alphabet[code % k]);
+                code /= k;
+            }
+            let firsts: Vec<Option<usize>> = (0..=5).map(|l| cs.iter().position(|s| shape_admits(s, l))).collect();
+            let covered = firsts.iter().all(|f| f.is_some());
+            let all_reached = (0..cs.len()).all(|i| firsts.iter().any(|f| *f == Some(i)));
+            if covered && all_reached {
+                lists.push(cs);
+            }
+        }
+    }
+    let total = lists.len();
+    let _ = ctx;
+    rep.notes.push(format!(
+        "list-shape family: {} of the {} accepted clause lists of <= 4 length-only list patterns ([], [_], .., [_,_,_], [_, ..], .., [_,_,_, ..], _), lengths 0..=5",
+        lists.len(),
+        total
+    ));
+    let outs: Vec<(String, Result<Vec<Option<usize>>, String>)> = par_map(&lists, threads, |cs| {
+        let mut src = String::from("fn f(xs: List<Int>) -> Int {\n  when xs is {\n");
+        for (i, s) in cs.iter().enumerate() {
+            src.push_str(&format!("    {} -> {}\n", shape_src(s), i));
+        }
+        src.push_str("  }\n}\n\nfn probe() -> List<Bool> {\n  [\n");
+        for l in 0..=5usize {
+            let v = format!("[{}]", (0..l).map(|x| x.to_string()).collect::<Vec<_>>().join(", "));
+            for i in 0..cs.len() {
+                src.push_str(&format!("    f({}) == {},\n", v, i));
+            }
+        }
+        src.push_str("  ]\n}\n");
+        let r = match compile_and_run(&src, PlutusVersion::V3) {
+            RunOut::Verdicts(v) if v.len() == 6 * cs.len() => {
+                Ok((0..6).map(|l| (0..cs.len()).find(|i| v[l * cs.len() + i])).collect())
+            }
+            RunOut::Verdicts(v) => Err(format!("{} verdicts", v.len())),
+            RunOut::Rejected(r) => Err(format!("rejected {:?}", r)),
+            RunOut::EvalError(e) => Err(format!("eval error {}", e)),
+            RunOut::Shape(e) => Err(format!("shape {}", e)),
+            RunOut::Panic(e) => Err(format!("panic {}", e)),
+        };
+        (src, r)
+    });
+    let mut reqs = vec![];
+    for cs in &lists {
+        let w = format!("({})", cs.iter().map(shape_wire).collect::<Vec<_>>().join(" "));
+        for l in 0..=5 {
+            reqs.push(format!("match listswitch fixed {} {}", w, l));
+            reqs.push(format!("match listswitch unfixed {} {}", w, l));
+        }
+    }
+    let replies = driver::run(&reqs);
+    let head = |r: &str| -> Option<usize> {
+        r.trim_start_matches('(').trim_end_matches(')').split(' ').next().and_then(|x| x.parse().ok())
+    };
+    for (ci, cs) in lists.iter().enumerate() {
+        let (src, real) = &outs[ci];
+        let real = match real {
+            Ok(r) => r,
+            Err(e) => {
+                rep.fail(
+                    &format!("shape-run:{:?}", cs),
+                    "an accepted length-only list `when` could not be compiled and run",
+                    json!({"source": src}),
+                    json!({"error": e}),
+                );
+                continue;
+            }
+        };
+        for l in 0..=5usize {
+            rep.evaluations += 1;
+            let key = format!("{:?}@{}", cs, l);
+            rep.nontrivial.insert(key.clone());
+            let expect = cs.iter().position(|s| shape_admits(s, l));
+            let fixed = head(&replies[(ci * 6 + l) * 2]);
+            let unfixed = head(&replies[(ci * 6 + l) * 2 + 1]);
+            if fixed != unfixed {
+                rep.count("shape:order-sensitive(fixed-model!=unfixed-model)");
+                if real[l] == unfixed {
+                    rep.count("shape:real=unfixed-model");
+                }
+            }
+            if real[l] != expect {
+                rep.fail(
+                    &format!("shape-first-match:{}", key),
+                    "compiled length-only list `when`: the clause taken is not the first whose pattern admits the length",
+                    json!({"source": src, "length": l}),
+                    json!({"real": real[l], "first-match": expect, "model-fixed": fixed, "model-unfixed": unfixed}),
+                );
+            }
+            if real[l] == fixed {
+                rep.count("shape:real=fixed-model");
+            } else {
+                rep.disagree(
+                    &format!("listswitch:{}", key),
+                    &reqs[(ci * 6 + l) * 2],
+                    &format!("{:?}", real[l]),
+                    &format!("{:?}", fixed),
+                );
+            }
+        }
+    }
 }
